@@ -29,6 +29,7 @@ ASSUMPTIONS = [
     "(residuals measured on every harness call; a failure is reported as a correspondence problem, not a violation)",
     "np.sqrt(2) is used only through sqrt2*sqrt2 = 2 and sqrt2 > 0",
 ]
+JIT_TWIN = ('tensors',)   # groups of harness/jittwin.py: the numba-compiled code is run on the same battery and compared
 TRUSTED = ["numpy einsum as the independent reference for the tensor transformation law and contractions"]
 EXTRA_LEAN_MODULES = ["Proofs.TensorsGroup",  # projectors = point-group averages; hex image is transversely isotropic
                       "Bridge.Tensors", "Bridge.TensorsRotate"]  # S2: definitions traced from tensors.py on this run = the model
